@@ -9,7 +9,7 @@ def run(ctx):
     quick = ctx.tier == "quick"
     # ------------------------------------------------------------ numeric identifiers
     ncfgs = ["MC_ZnNum_all.cfg", "MC_ZnNum_wmethod.cfg"] if quick else ["MC_ZnNum_all6.cfg", "MC_ZnNum_wmethod.cfg"]
-    lcfgs = ["all3", "kw5", "kw2_4", "op4", "quote5", "kwatoms"] if quick else ["all4", "kw", "kw2", "op", "quote", "kwatoms"]
+    lcfgs = ["all3", "kw5", "kw2_4", "op4", "quote5", "kwatoms", "btop6"] if quick else ["all4", "kw", "kw2", "op", "quote", "kwatoms", "btop6"]
     def runtlc(job):
         mod, cfg = job
         return job, common.tlc(ctx, mod, cfg, workers=4, timeout=3000)
@@ -110,7 +110,7 @@ def run(ctx):
                rule="numeric: every string of length <= %d over the 11 character classes {0,1,2-9,+,-,.,e,E,*,^,other} and the W-method suite P.Sigma^{<=3}.W of the 13-state "
                     "minimal specification DFA (complete for implementations with up to two extra states; W's separation of all state pairs and the access table are "
                     "checked by TLC): classification number/name/reject by exec.MatchIDType, value bit-exact against the correctly rounded double of the denoted decimal; "
-                    "tokenisation: all strings <= %d over the full 27-symbol alphabet and <= %s over four reduced alphabets (keywords, keywords2, operators/comments, "
+                    "tokenisation: all strings <= %d over the full 27-symbol alphabet and <= %s over five reduced alphabets (keywords, keywords2, operators/comments, back-ticks with comment openers <= 6, "
                     "quotes/back-ticks), all strings <= 3 over {letter, blank, each of the 34 keywords of the manual as an atom} (every keyword cut out after / before / between names and other keywords), token kinds and spans of zh.NextToken vs the scanner machine; identifier alphabet: IdInRange over all 0x110000 code points, "
                     "run-length encoded, validated by TLC against the normal form of the interval table extracted from id_range.go; and the LEXER's own view (first token of `a` c `a` for every code point c) validated by TLC against table + {. * / %%} - the eight one-character keywords"
                     % (5 if quick else 6, 3 if quick else 4, "4-5" if quick else "5-6"),
